@@ -127,13 +127,13 @@ class Front:
         st = {"file": None, "line": None}
         for o in objs:
             annotate(o, st, self.repo)
-        names = sorted({o["mangledName"] for o in objs if "mangledName" in o})
+        nodes = [x for o in objs for x in walk(o) if "mangledName" in x]
+        names = sorted({x["mangledName"] for x in nodes})
         if names:
             p = subprocess.run([CXXFILT], input="\n".join(names) + "\n", stdout=subprocess.PIPE, text=True)
             dm = dict(zip(names, p.stdout.split("\n")))
-            for o in objs:
-                if "mangledName" in o:
-                    o["_dm"] = dm.get(o["mangledName"], "")
+            for x in nodes:
+                x["_dm"] = dm.get(x["mangledName"], "")
         return objs
 
 
@@ -309,7 +309,16 @@ class Module:
 
     # ---- lookup -------------------------------------------------------------------------------
     def candidates(self, tu, simple):
-        return [o for o in self.front.decls(tu, simple) if o.get("name") == simple]
+        """Every declaration named `simple` that clang printed for the filter `simple`, including declarations nested in
+        a printed parent (locals without linkage have no mangled name and are skipped: they are resolved by id)."""
+        res = []
+        for o in self.front.decls(tu, simple):
+            if o.get("name") == simple:
+                res.append(o)
+            for x in walk(o):
+                if x is not o and x.get("name") == simple and "mangledName" in x and x.get("kind") in ("FunctionDecl", "CXXMethodDecl", "VarDecl"):
+                    res.append(x)
+        return res
 
     def find_qualified(self, tu, qualified, signature=None, want_body=True):
         simple = qualified.split("::")[-1]
@@ -494,7 +503,10 @@ class FnTr:
         while name in self.used_names:
             name = f"{base}_{i}"; i += 1
         self.used_names.add(name)
-        t = ctype(v["type"])
+        try:
+            t = ctype(v["type"])
+        except Fail:
+            t = ("unsupported", v["type"]["qualType"])      # fails loudly where (if) the variable is used
         self.vars[v["id"]] = (name, t)
         self.var_off[v["id"]] = None if v.get("kind") == "ParmVarDecl" else offset_of(v)
         return name, t
@@ -534,9 +546,12 @@ class FnTr:
             self.has_loop = any(x.get("kind") in ("WhileStmt", "ForStmt", "DoStmt") for s in stmts for x in walk(s))
         # final continuation
         if outputs is not None:
-            fin = "(" + ", ".join(self.vars[i][0] for i in outputs) + ")" if len(outputs) > 1 else self.vars[outputs[0]][0]
-            self.ret_t = ("tuple", [self.vars[i][1] for i in outputs]) if len(outputs) > 1 else self.vars[outputs[0]][1]
-            self.fall = fin
+            onames = ["self" if i == "self" else self.vars[i][0] for i in outputs]
+            otypes = [("class", self.cls) if i == "self" else self.vars[i][1] for i in outputs]
+            if "self" in onames:
+                self.uses_self = True
+            self.ret_t = ("tuple", otypes) if len(outputs) > 1 else otypes[0]
+            self.fall = "(" + ", ".join(onames) + ")" if len(outputs) > 1 else onames[0]
         elif self.ret_t[0] == "void":
             self.fall = "self"
         else:
@@ -547,6 +562,10 @@ class FnTr:
         self.helpers = [h.replace(FUELMARK, "fuel0") for h in self.helpers]
         if "MISSING_RETURN" in text or any("MISSING_RETURN" in h for h in self.helpers):
             raise Fail("control can reach the end of a non-void function")
+        if self.mut_self and not self.void and not (self.slice and "self" in self.slice["outputs"]):
+            raise Fail("the receiver is modified but not returned (non-void mutating member function, or a slice without `self` among its outputs)")
+        if self.mut_self and any(self.param_is_struct(t) for n, t, p in plist):
+            raise Fail("the receiver is modified and another object of a translated class is passed by reference (possible aliasing)")
         # parameters
         ps = []
         if self.has_loop:
@@ -632,20 +651,65 @@ class FnTr:
         return f"some ({e})" if self.has_loop else e
 
     def take_slice(self, stmts):
+        """Statement range `[from, until)` inside one statement list of the body (any nesting depth).
+        from : {"from_decl": v} the statement declaring v | {"from_call": f [, "call_type": qualType]} the first
+               innermost statement calling f (at that instantiation type)
+        until: {"until_decl": v} the first later statement of the same list that declares v (at any depth inside it)
+               | {"until_end": true} the end of that list"""
         s = self.slice
 
-        def declares(st, name):
-            return st.get("kind") == "DeclStmt" and any(v.get("name") == name for v in st.get("inner", []))
-        i0 = [i for i, st in enumerate(stmts) if declares(st, s["from_decl"])]
-        i1 = [i for i, st in enumerate(stmts) if declares(st, s["until_decl"])]
-        if len(i0) != 1 or len(i1) != 1 or i0[0] >= i1[0]:
-            raise Fail(f"slice markers {s['from_decl']} / {s['until_decl']} not found as top-level declarations (in this order)")
-        sel = stmts[i0[0]:i1[0]]
+        def declares(st, name, deep):
+            nodes = walk(st) if deep else [st]
+            return any(x.get("kind") == "DeclStmt" and any(v.get("name") == name and v.get("kind") == "VarDecl" for v in x.get("inner", [])) for x in nodes)
+
+        def calls(st, name):
+            for x in walk(st):
+                if x.get("kind") == "CallExpr":
+                    c = unwrap(x["inner"][0])
+                    if c.get("kind") == "DeclRefExpr" and c["referencedDecl"].get("name") == name and \
+                            s.get("call_type", c["referencedDecl"]["type"]["qualType"]) == c["referencedDecl"]["type"]["qualType"]:
+                        return True
+            return False
+
+        lists = []      # (depth, list)
+
+        def collect(n, depth):
+            if n.get("kind") == "CompoundStmt":
+                lists.append((depth, n.get("inner", [])))
+            for c in n.get("inner", []) or []:
+                if isinstance(c, dict) and c:
+                    collect(c, depth + 1)
+        collect({"kind": "CompoundStmt", "inner": stmts}, 0)
+        found = []
+        for depth, lst in lists:
+            for i, st in enumerate(lst):
+                if "from_decl" in s and declares(st, s["from_decl"], False):
+                    found.append((depth, lst, i))
+                elif "from_call" in s and calls(st, s["from_call"]):
+                    found.append((depth, lst, i))
+                    break
+        if "from_call" in s and found:
+            dmax = max(f[0] for f in found)
+            found = [f for f in found if f[0] == dmax]
+        if len(found) != 1:
+            raise Fail(f"slice start marker {json.dumps({k: v for k, v in s.items() if k.startswith('from')})} matches {len(found)} statements (need exactly 1)")
+        _, lst, i0 = found[0]
+        if s.get("until_end"):
+            i1 = len(lst)
+        else:
+            ends = [i for i in range(i0 + 1, len(lst)) if declares(lst[i], s["until_decl"], True)]
+            if not ends:
+                raise Fail(f"slice end marker `{s['until_decl']}` not found after the start marker in the same block")
+            i1 = ends[0]
+        sel = lst[i0:i1]
         self.slice_off = offset_of(sel[0])
         if self.slice_off is None:
             raise Fail("slice starts inside a macro expansion")
         outs = []
         for name in s["outputs"]:
+            if name == "self":
+                outs.append("self")
+                continue
             ids = [vid for vid, (n, t) in self.vars.items() if n == lean_ident(name)]
             if len(ids) != 1:
                 raise Fail(f"slice output `{name}` is not a unique variable")
@@ -828,6 +892,7 @@ class FnTr:
         if not d.void:
             raise Fail(f"{pos_of(e)}: value of non-void call discarded")
         self.uses_self = True
+        self.mut_self = True
         return f"let self : {struct_name(self.cls)} := {d.lname} {' '.join(args)}\n{k}"
 
     def if_stmt(self, s, k, ctx):
@@ -1017,6 +1082,10 @@ class FnTr:
                     if v < (1 << (dt[1] - 1)):
                         return f"({v} : Int)"
                 return self.convert(ctype(sub["type"]), dt, self.expr(sub), n)
+            if ck == "UserDefinedConversion":
+                if unwrap(sub)["kind"] != "CXXMemberCallExpr":
+                    raise Fail(f"{pos_of(n)}: user-defined conversion of unsupported form")
+                return self.convert(ctype(sub["type"]), ctype(n["type"]), self.expr(sub), n)
             if ck == "IntegralToBoolean":
                 return self.convert(ctype(sub["type"]), ("bool",), self.expr(sub), n)
             raise Fail(f"{pos_of(n)}: cast kind {ck} ({sub['type']['qualType']} -> {n['type']['qualType']}) is outside the supported subset")
@@ -1033,6 +1102,8 @@ class FnTr:
             ref = n["referencedDecl"]
             if ref["id"] in self.vars:
                 name, t = self.vars[ref["id"]]
+                if t[0] == "unsupported":
+                    raise Fail(f"{pos_of(n)}: variable `{name}` of type `{t[1]}` is outside the supported subset")
                 if t[0] == "class" and not self.param_is_struct(t):
                     raise Fail(f"{pos_of(n)}: opaque object `{name}` used as a value")
                 return name
@@ -1249,6 +1320,18 @@ class FnTr:
                     return None, f"({f} {' '.join(self.expr(a) for a in args)})"
                 return None, self.add_abstract(f"{vname}_{lean_ident(name)}", lean_ty(rt))
             recv, cls = vname, self.canon_class(vt[1])
+        elif (base["kind"] == "DeclRefExpr" and base["referencedDecl"].get("kind") == "VarDecl") or \
+                (base["kind"] == "MemberExpr" and unwrap(base["inner"][0])["kind"] == "CXXThisExpr"):
+            # observer of a global object (`static_cast<int>(bufferTime)`) or of a member object (`pos.isWhiteMove()`):
+            # an abstract parameter; assumed to be a pure read of a value that is constant during the kernel
+            oname = base["referencedDecl"]["name"] if base["kind"] == "DeclRefExpr" else base["name"]
+            if not cal["inner"][0]["type"]["qualType"].startswith("const "):
+                raise Fail(f"{pos_of(n)}: call of non-const member `{name}` on the opaque object `{oname}`")
+            rt = ctype(n["type"])
+            if not is_int(rt) or args:
+                raise Fail(f"{pos_of(n)}: observer `{oname}.{name}` must take no arguments and return an integral value")
+            pname = lean_ident(oname) if name.startswith("operator ") else f"{lean_ident(oname)}_{lean_ident(name)}"
+            return None, self.add_abstract(pname, lean_ty(rt))
         else:
             raise Fail(f"{pos_of(n)}: member call on an unsupported object expression ({base['kind']})")
         d = self.mod.resolve_member(self.tu, cls, name, len(args), pos_of(n))
